@@ -1,7 +1,7 @@
 #!/usr/bin/env python3
 """Re-run every stored seeded change (/verif/seeded/*/patch.diff) against the current /repo HEAD in a scratch worktree:
 does it still apply and build, and does the property's check (static, on the patched scratch tree) report it?
-usage: reseed.py [id-prefix]"""
+usage: reseed.py [id-prefix] [--update]   (--update rewrites detected_by_check/reported in meta.json, keeping the first verdict as detected_initially)"""
 import json, os, subprocess, sys, glob
 env = dict(os.environ, GOFLAGS='-mod=mod', GOPROXY='off', GOSUMDB='off', GOTOOLCHAIN='local')
 WT = '/tmp/wt-reseed'
@@ -10,7 +10,9 @@ def sh(cmd, cwd=None):
     return p.returncode, p.stdout + p.stderr
 sh(f'git -C /repo worktree remove --force {WT}')
 rc, o = sh(f'git -C /repo worktree add -q --detach {WT} HEAD'); assert rc == 0, o
-pref = sys.argv[1] if len(sys.argv) > 1 else ''
+args = [a for a in sys.argv[1:] if a != '--update']
+update = '--update' in sys.argv
+pref = args[0] if args else ''
 rows = []
 for d in sorted(glob.glob('/verif/seeded/*')):
     sid = os.path.basename(d)
@@ -27,6 +29,11 @@ for d in sorted(glob.glob('/verif/seeded/*')):
     rc, o = sh(f'/verif/bin/mitumvet -noselftest -repo {WT} -property {prop} -evidence /tmp/reseed-ev.json')
     v = [l for l in o.splitlines() if l.startswith(('VIOLATED', 'UNRESOLVED'))]
     rows.append((sid, 'detected' if rc == 1 else 'MISSED(exit %d)' % rc, (v[0][:150] if v else '')))
+    if update and rc in (0, 1) and bool(meta.get('detected_by_check')) != (rc == 1):
+        meta.setdefault('detected_initially', bool(meta.get('detected_by_check')))
+        meta['detected_by_check'] = rc == 1
+        meta['reported'] = v[:6]
+        json.dump(meta, open(os.path.join(d, 'meta.json'), 'w'), indent=1)
 sh(f'git -C /repo worktree remove --force {WT}')
 for r in rows: print('%-10s %-22s %s' % r)
 print('total', len(rows), 'detected', sum(1 for r in rows if r[1] == 'detected'))
